@@ -259,8 +259,10 @@ class Run:
         if new:
             sys.exit(1)
         if self.inconclusive:
-            for r in self.inconclusive:
+            for r in self.inconclusive[:6]:
                 print(f"INCONCLUSIVE property={self.pid} {r}")
+            if len(self.inconclusive) > 6:
+                print(f"INCONCLUSIVE property={self.pid} ... and {len(self.inconclusive) - 6} more reasons (see the evidence file)")
             sys.exit(2)
         sys.exit(0)
 
